@@ -99,7 +99,7 @@ def may_locate(pols, user, groups, owner, otype_name, pname):
         sections.append(pb.get('preset'))
     else:
         for g in groups:
-            sections.append((pb.get('groups') or {}).get(g) if g else pb.get('preset'))
+            sections.append((pb.get('groups') or {}).get(g) if g is not None else pb.get('preset'))
     for s in sections:
         if not s:
             continue
@@ -449,12 +449,8 @@ def gen_filter_matching(rng, kind, o):
     if kind == 'otype':
         return ['otype', tname]
     if kind == 'alg':
-        if tname in KEY_TYPES and o['alg'] is None:
-            return ['alg', 'DSA']          # doctored row: the filter is skipped
         return ['alg', enums.CryptographicAlgorithm(o['alg']).name] if o['alg'] is not None else None
     if kind == 'len':
-        if tname in KEY_TYPES and o['len'] is None:
-            return ['len', 512]
         return ['len', o['len']] if o['len'] is not None else None
     if kind == 'mask':
         if tname == 'OPAQUE_DATA':
@@ -475,8 +471,6 @@ def gen_filter_matching(rng, kind, o):
         return ['sensitive', o['sensitive']]
     if kind == 'date':
         return ['date', o['idate']]
-    if kind == 'other':
-        return ['other', rng.choice(sorted(OTHER_FILTERS))]
     return None
 
 
@@ -568,8 +562,8 @@ def case_to_coq(store_name, req, fs, off, mx, obs, version=(1, 2)):
             if str(int(s)) != s:
                 raise RuntimeError('non-canonical identifier in a Locate response: %r' % s)
             ids.append(int(s))
-    return '(mkCase %s (%s, %s) pols_ (mkReq %s %s) %s %s %s %s %s)' % (
-        cp.boolean(GATE['on']), cp.z(version[0]), cp.z(version[1]), cp.string(req[0]), cp.option(req[1], lambda g: cp.lst(g, cp.string)), store_name,
+    return '(mkCase (%s, %s) pols_ (mkReq %s %s) %s %s %s %s %s)' % (
+        cp.z(version[0]), cp.z(version[1]), cp.string(req[0]), cp.option(req[1], lambda g: cp.lst(g, cp.string)), store_name,
         cp.lst(fs, filter_to_coq), cp.option(off, cp.z), cp.option(mx, cp.z), cp.option(ids, lambda l: cp.lst(l, cp.z)))
 
 
@@ -604,13 +598,17 @@ def oracle_matches(a, f):
         return a.get('Unique Identifier') == f[1]
     if k == 'sensitive':
         return 'Sensitive' in a and a['Sensitive'] == f[1]
+    if k == 'other':
+        if f[1] in a:
+            raise RuntimeError('GetAttributes shows a value for %r; the oracle has no comparison for it' % f[1])
+        return False                # the object has no value for the attribute, so it does not match
     raise KeyError(k)
 
 
 def oracle_expected(store, req, fs):
     """Set of uids the property demands (None when the request is outside the property: >2 dates, unsupported filter)."""
     dates = [f[1] for f in fs if f[0] == 'date']
-    if len(dates) > 2 or any(f[0] in ('other', 'maskraw') for f in fs):
+    if len(dates) > 2 or any(f[0] == 'maskraw' for f in fs):
         return None
     want = set()
     for o in store.objs:
@@ -657,10 +655,7 @@ def oracle_check(ctx, store, req, fs, off, mx, version, obs, full_obs):
     dates = [f[1] for f in fs if f[0] == 'date']
     idate = {o['uid']: (store.attrs[o['uid']] or {}).get('Initial Date', o['idate']) for o in store.objs}
     if obs['ids'] is None:
-        if obs['reason'] == 'GENERAL_FAILURE':
-            ctx.count('oracle.skipped.general_failure(C13)')
-            return False
-        if GATE['on'] and 'attribute is unsupported' in (obs['message'] or '') and any(not version_has(version, f) for f in fs):
+        if 'attribute is unsupported' in (obs['message'] or '') and any(not version_has(version, f) for f in fs):
             ctx.count('oracle.version_gate.refused')
             return False
         if len(dates) > 2 and 'Too many' in (obs['message'] or ''):
@@ -769,6 +764,8 @@ def run_store(ctx, rng, idx, plan, pols, n_requests, cases, meta, defs, epoch=Fa
             req = rng.choice(REQUESTERS[:2] * 8 + REQUESTERS[2:4] * 2 + REQUESTERS[4:8] * 2 + REQUESTERS)
             fs = gen_filters(rng, store, req)
             version = rng.choice(kdrv.VERSIONS)
+            if any(f[0] == 'sensitive' for f in fs) and rng.random() < 0.75:
+                version = rng.choice([(1, 4), (2, 0)])      # Sensitive exists from KMIP 1.4 on; earlier versions refuse the filter
             full_obs = run_locate(store, req, fs, None, None, version)
             n_full = len(full_obs['ids']) if full_obs['ids'] is not None else len(store.objs)
             n_vis = len([o for o in store.objs if may_locate(store.pols, req[0], req[1], o['owner'], OT(o['type']).name, o['policy'])])
@@ -840,12 +837,19 @@ def structure_check(ctx):
         rets = [r for r in ast.walk(ast.Module(body=cur.body, type_ignores=[])) if isinstance(r, ast.Return)]
         if len(rets) == 1 and isinstance(rets[0].value, ast.Constant) and rets[0].value.value is None:
             fetch[name] = None
+        elif (len(rets) == 1 and isinstance(rets[0].value, ast.Call) and isinstance(rets[0].value.func, ast.Name)
+              and rets[0].value.func.id == 'getattr' and len(rets[0].value.args) == 3
+              and isinstance(rets[0].value.args[0], ast.Name) and rets[0].value.args[0].id == 'managed_object'
+              and isinstance(rets[0].value.args[1], ast.Constant)
+              and isinstance(rets[0].value.args[2], ast.Constant) and rets[0].value.args[2].value is None):
+            fetch[name] = ['getattr-or-None', rets[0].value.args[1].value]       # absent on classes without the field
         else:
             fetch[name] = sorted({a.attr for b in cur.body for a in ast.walk(b)
                                   if isinstance(a, ast.Attribute) and isinstance(a.value, ast.Name) and a.value.id == 'managed_object'})
         cur = cur.orelse[0] if len(cur.orelse) == 1 and isinstance(cur.orelse[0], ast.If) else None
     for name, field in MODEL_FETCH.items():
-        if fetch.get(name) != [field]:
+        want = ['getattr-or-None', field] if name in ('Cryptographic Algorithm', 'Cryptographic Length') else [field]
+        if fetch.get(name) != want:
             problems.append('%r is fetched from %r (model: managed_object.%s)' % (name, fetch.get(name), field))
     for name in OTHER_FILTERS:
         if fetch.get(name, 'missing') is not None:
@@ -858,8 +862,10 @@ def structure_check(ctx):
     for n in ast.walk(fns['_process_locate']):
         if isinstance(n, ast.If) and isinstance(n.test, ast.Compare) and isinstance(n.test.left, ast.Name) and n.test.left.id == 'attribute' \
                 and isinstance(n.test.ops[0], ast.Is):
-            if not (len(n.body) == 1 and isinstance(n.body[0], ast.Continue)):
-                problems.append('`attribute is None` no longer continues')
+            b = [x for x in n.body if not isinstance(x, ast.Expr)]         # debug logging aside
+            if not (len(b) == 2 and isinstance(b[0], ast.Assign) and isinstance(b[0].targets[0], ast.Name) and b[0].targets[0].id == 'add_object'
+                    and isinstance(b[0].value, ast.Constant) and b[0].value.value is False and isinstance(b[1], ast.Break)):
+                problems.append('`attribute is None` is no longer `add_object = False; break`')
             cur = n.orelse[0] if n.orelse else None
             while isinstance(cur, ast.If):
                 nm = const_of(cur.test.comparators[0]) if isinstance(cur.test, ast.Compare) and isinstance(cur.test.left, ast.Name) and cur.test.left.id == 'name' else None
@@ -867,9 +873,11 @@ def structure_check(ctx):
                     break           # the final `else: if value != attribute` fallback
                 branches.append(nm)
                 cur = cur.orelse[0] if len(cur.orelse) == 1 and isinstance(cur.orelse[0], ast.If) else None
-    # optional version gate (fixes/C16-locate-attr-gate): does _process_locate ask is_attribute_supported?
+    # version gate: _process_locate asks is_attribute_supported for every filter name
     GATE['on'] = any(isinstance(n, ast.Call) and isinstance(n.func, ast.Attribute) and n.func.attr == 'is_attribute_supported'
                      for n in ast.walk(fns['_process_locate']))
+    if not GATE['on']:
+        problems.append('_process_locate no longer calls is_attribute_supported (version gate)')
     if branches != MODEL_BRANCHES:
         problems.append('attribute branches of _process_locate are %r (model: %r)' % (branches, MODEL_BRANCHES))
     ctx.cov['structure_check'] = {'version_gate_present': GATE['on'], 'fetch_map_entries': len(fetch), 'none_valued': sorted(n for n, v in fetch.items() if v is None),
@@ -933,6 +941,8 @@ def run_grid(ctx, rng, idx, plan, pols, cases, meta, defs):
         defs.append('Definition %s : list obj := %s.' % (sname, cp.lst(store.objs, obj_to_coq).replace('; (mkObj', ';\n   (mkObj')))
         for req, fs in grid_requests(rng, store):
             version = rng.choice(kdrv.VERSIONS)
+            if any(f[0] == 'sensitive' for f in fs) and rng.random() < 0.75:
+                version = rng.choice([(1, 4), (2, 0)])
             full_obs = run_locate(store, req, fs, None, None, version)
             n_full = len(full_obs['ids']) if full_obs['ids'] is not None else 2
             for (off, mx) in [(None, None), (1, None), (None, 1), (0, n_full), (1, max(n_full - 1, 0)), (n_full, 1)][:rng.choice([1, 2, 3, 6])]:
